@@ -243,12 +243,17 @@ def oracle(ctx, obs):
                                   {"kind": "setup_value0", "setup": o["setup"]}, dict(rep0, rate=ss[0], expected=float(x)))
 
 
-IMPORTS = "From Coq Require Import QArith Qabs List ZArith Bool.\nFrom SpdVerif Require Import Model.FinSum Model.Hom.\nImport ListNotations.\n"
+IMPORTS = "From Coq Require Import QArith Qabs List ZArith Bool.\nFrom SpdVerif Require Import Model.FinSum Model.Hom Model.Hom2 Model.C10_Pyth.\nImport ListNotations.\n"
 DEFS = """
 Definition chk0 (N : nat) (f g : list (cx Q)) (series0 single0 normed0 norm tol : Q) :=
   let r := hom_rate_Q0 N f g in
   (Qle_bool (Qabs (r - series0)) tol, Qle_bool (Qabs (r - single0)) tol,
    Qle_bool (Qabs (hom_rate_Q0_normed N f g norm - normed0)) tol, r).
+"""
+
+DEFS += """
+Definition chkp (n : nat) (f g : list (cx Q)) (m0 k r : Z) (rate tol : Q) :=
+  let x := hom_rate_Qpyth n f g m0 k r in (Qle_bool (Qabs (x - rate)) tol, x).
 """
 
 ITAC = ("Import ListNotations.\n"
@@ -290,10 +295,29 @@ def correspondence(ctx, obs, max_cells_q, max_cells_i, max_goals):
                                    f"{coq_hex(o['taus'][j])} None - {coq_hex(o['singles'][j])}) <= {TOLI}", "hom_case"))
                 gmeta[cid] = (o, j)
                 break
+    for o in obs:
+        if o["kind"] != "pyth" or not isinstance(o["rate"], str):
+            continue
+        cid = f"y{len(exprs)}"
+        z = lambda v: f"({v})%Z"
+        exprs.append((cid, f"chkp {o['n']} {clist(o['fre'], o['fim'])} {clist(o['gre'], o['gim'])} {z(o['m0'])} {z(o['k'])} {z(o['r'])} {qlit(frac_of_hex(o['rate']))} {qlit(TOL0)}"))
+        meta[cid] = o
+        ctx.seen(("pyth", o["n"], o["k"], o["r"], o["m0"], o["h"], tuple(o["fre"][:6])))
+        ctx.count(f"pyth:n{o['n']}")
     res = run_compute_cases(ctx, "C09", IMPORTS, DEFS, exprs, shards=min(NCPU, max(1, len(exprs) // 3)))
     ctx.cov["obligations"] += len(exprs)
     for cid, _ in exprs:
         o = meta[cid]
+        if o["kind"] == "pyth":
+            mp = re.match(r"\((true|false), (.*)\)$", res.get(cid) or "")
+            if mp and mp.group(1) == "true":
+                ctx.cov["discharged"] += 1
+                continue
+            ctx.case_failures.append({"case": cid})
+            ctx.violation("S4", f"delay {o['m0']} atan(4/3)/h = {fl(o['tau'])!r}: exact model rate with Pythagorean phases {mp.group(2) if mp else res.get(cid)} vs hom_rate {fl(o['rate'])!r} "
+                                f"disagree beyond 1e-12 ({o['n']}x{o['n']}, k={o['k']}, r={o['r']})", {"kind": "value", "family": "pyth"},
+                          dict(arr_input(dict(o, family="pyth", gkind="independent")), tau=fl(o["tau"]), rate=fl(o["rate"])), found_input=False)
+            continue
         m = re.match(r"\((true|false), (true|false), (true|false), (.*)\)$", res.get(cid) or "")
         sq_sym = o["cols"] == o["rows"] and o["xs"] == o["ys"] and o["gkind"] == "transpose"
         if not m:
@@ -328,7 +352,7 @@ def run(ctx):
     proved = (not msgs) and prove(ctx, "C09")
     quick = ctx.tier == "quick"
     ncases, max_side, nsetup, ngauss = (84, 8, 9, 6) if quick else (350, 16, 36, 30)
-    obs = run_harness(ctx, binp, ["c09", ctx.seed, ncases, max_side, nsetup, ngauss])
+    obs = run_harness(ctx, binp, ["c09", ctx.seed, ncases, max_side, nsetup, ngauss, 36 if quick else 120])
     oracle(ctx, obs)
     for o in [x for x in obs if x["kind"] == "arr"][8:10]:
         ctx.sample({"family": o["family"], "cols": o["cols"], "rows": o["rows"], "taus": [fl(t) for t in o["taus"]], "rates": [fl(x) for x in o["singles"]]})
@@ -360,7 +384,7 @@ def run(ctx):
             "(C09_setup_is_array_level, C09_setup_exchanged_is_transpose); measured Rust-vs-Rust (1e-9)",
         "panic / NaN / infinity paths (short slices, zero norm, empty delay list)": "proved on the total model (C09_total_panic_iff, C09_total_default_norm, "
             "C09_total_zero_norm, C09_series_total_cases, C09_total_is_model); implementation exercised under catch_unwind and compared with the model's outcome",
-        "binary64 result vs real model": "validated_only (vm_compute at zero delay 1e-12, interval goals at non-zero delays 1e-10)"}
+        "binary64 result vs real model": "validated_only (vm_compute at zero delay and, with Pythagorean phases, at delays m0 atan(4/3)/h, 1e-12; interval goals at other delays 1e-10)"}
     return finish(ctx, assumptions=[
         "arrays have the grid's length (as every caller in the crate passes); shorter arrays panic on indexing, not modelled",
         "the setup's joint spectral amplitude is an arbitrary function J(ws, wi) (oracle); hom_time_delay is an input",
